@@ -17,6 +17,9 @@ import warnings
 def main():
     mode, workdir, specfile = sys.argv[1:4]
     spec = json.load(open(specfile))
+    cl = spec.get('sim', {}).get('algorithm_params', {}).get('chi_list')
+    if cl:
+        spec['sim']['algorithm_params']['chi_list'] = {int(k): v for k, v in cl.items()}  # (JSON turned the sweep numbers into strings)
     os.chdir(workdir)
     warnings.simplefilter('ignore')
     import numpy as np
